@@ -32,6 +32,7 @@ fn main() {
         "pos-replay" => posx::cmd_replay(rest),
         "squash-replay" => squashx::cmd_replay(rest),
         "lib-dump" => detx::cmd_dump(rest),
+        "lib-search" => detx::cmd_search(rest),
         "total-run" => totalx::cmd_run(rest),
         "refactor-replay" => refx::cmd_replay(rest),
         "rename-replay" => refx::cmd_rename(rest),
